@@ -135,7 +135,17 @@ def angles(triangles):
 
     # a triangle with any zero angles is degenerate
     # so set all of the angles to zero in that case
-    result[(result < tol.merge).any(axis=1), :] = 0.0
+    degenerate = (result < tol.merge).any(axis=1)
+    # `arccos` can not resolve angles below `sqrt(2 * eps) ~= 2e-8`: a cosine
+    # one ulp below 1.0 already reads as 1.5e-8 which is above `tol.merge`
+    # so two coincident corners were reported as `(2e-8, pi/2, pi/2)`.
+    # The chord between the unit vectors of a corner is `2 * sin(angle / 2)`
+    # which is accurate near zero and exactly zero for coincident corners.
+    chords = np.column_stack(
+        [np.linalg.norm(a - b, axis=1) for a, b in ((u, v), (-u, w), (v, w))]
+    )
+    degenerate |= (chords < tol.merge).any(axis=1)
+    result[degenerate, :] = 0.0
 
     return result
 
